@@ -22,22 +22,26 @@ def insertKey (k : Nat) : List Nat → List Nat
 def CAP : Nat := 4
 def MERGE : Nat := 2
 
-def digest (st : St) : Option (St × List (Nat × List Nat × Option Nat) × Option Nat) :=
+/-- `bs` = the `BranchUpdater` convention: every node of a split gets the updater's cutoff as `next_separator` (the
+`LeafUpdater` passes the separator of the next emitted node); `hs`: an over-full content is split in the middle (as the real
+updaters do: `body_size / 2`) instead of after `CAP` keys -/
+def digestG (bs : Bool) (hs : Bool := false) (st : St) : Option (St × List (Nat × List Nat × Option Nat) × Option Nat) :=
   match st.items with
   | [] => some ({ cutoff := st.cutoff }, [], none)
   | first :: _ =>
     let sep := st.sep.getD first
     if st.items.length > CAP then
-      let l := st.items.take CAP
-      let r := st.items.drop CAP
+      let cut := if hs then st.items.length / 2 else CAP
+      let l := st.items.take cut
+      let r := st.items.drop cut
       match r with
       | [] => none
       | rf :: _ =>
         if r.length ≥ MERGE ∨ st.cutoff = none then
-          some ({ cutoff := st.cutoff }, [(sep, l, some rf), (rf, r, st.cutoff)], none)
+          some ({ cutoff := st.cutoff }, [(sep, l, if bs then st.cutoff else some rf), (rf, r, st.cutoff)], none)
         else
           match st.cutoff with
-          | some c => some ({ items := r, cutoff := st.cutoff, sep := some rf }, [(sep, l, some rf)], some c)
+          | some c => some ({ items := r, cutoff := st.cutoff, sep := some rf }, [(sep, l, if bs then st.cutoff else some rf)], some c)
           | none => none
     else if st.items.length ≥ MERGE ∨ st.cutoff = none then
       some ({ cutoff := st.cutoff }, [(sep, st.items, st.cutoff)], none)
@@ -45,6 +49,8 @@ def digest (st : St) : Option (St × List (Nat × List Nat × Option Nat) × Opt
       match st.cutoff with
       | some c => some ({ st with sep := some sep }, [], some c)
       | none => none
+
+def digest (st : St) : Option (St × List (Nat × List Nat × Option Nat) × Option Nat) := digestG false false st
 
 /-- changes: `true` = insert the key, `false` = delete it -/
 def upd : Upd St (List Nat) Bool where
@@ -57,6 +63,12 @@ def upd : Upd St (List Nat) Bool where
   removeCutoff := fun st => { st with cutoff := none }
   ingest := fun st k c => some { st with items := if c then insertKey k st.items else st.items.filter (· != k) }
   digest := digest
+
+/-- the toy updater with the `BranchUpdater` cutoff convention -/
+def updB : Upd St (List Nat) Bool := { upd with digest := digestG true false }
+
+/-- the toy updater that splits in the middle (`LeafUpdater` cutoff convention) -/
+def updH : Upd St (List Nat) Bool := { upd with digest := digestG false true }
 
 /-- a level from its nodes: separator = first key, page number = position + 1 -/
 def mkDb (nodes : List (List Nat)) : List (DbN (List Nat)) :=
@@ -108,6 +120,47 @@ untouched tail behind it, three successive merges of the left worker's under-ful
 
 def lvlC : List (List Nat) := [[10, 11, 12, 13], [20, 21], [30, 31, 32, 33], [40, 41, 42, 43], [50, 51, 52, 53], [60, 61]]
 def csC : List (Nat × Bool) := [(11, false), (12, false), (13, false), (20, false), (21, false)]
+
+/-! ### a split first base of the right worker, an under-full last node of the left worker -/
+
+def lvlD : List (List Nat) := [[10, 11, 12, 13], [20, 21, 22, 23], [30, 31, 32]]
+def csD : List (Nat × Bool) := [(11, false), (12, false), (13, false), (24, true), (25, true)]
+
+/-! ### the same separator in two trackers: the right worker merges its under-full first node `[20]` with `[30, 31, 32]` (a
+delete mark under 30 stays in its tracker), the left worker merges its rest `[10]` with the handed-over `[20, 30, 31, 32]` and
+splits in the middle — the second half starts at 30 -/
+
+def lvlE : List (List Nat) := [[10, 11, 12, 13], [20, 21], [30, 31, 32], [40, 41, 42]]
+def csE : List (Nat × Bool) := [(11, false), (12, false), (13, false), (21, false)]
+
+/-- the stage of updater `U`: per worker the changeset entries it hands to `apply_*_changes` (separator, inserted?), then the
+keys of the nodes of the new level -/
+def stageParts (U : Upd St (List Nat) Bool) (nodes : List (List Nat)) (cs : List (Nat × Bool)) (count : Nat) (rev : Bool)
+    (burst : Nat) : Option (List (List (Nat × Bool)) × List (List Nat)) :=
+  let db := mkDb nodes
+  let wps := prepareWorkers (look db) (cs.map (·.1)) count
+  let g0 := initG U {} db cs wps
+  let order := if rev then (List.range g0.n).reverse else List.range g0.n
+  match runPolicy U {} db order burst 400 g0 with
+  | some (.inr g) =>
+    (assemble {} g (List.range g.n)).map fun (changes, _) =>
+      ((List.range g.n).map fun i => (workerChanges (g.ws i)).1.map fun x => (x.1, x.2.isSome),
+       (applyCs (db.map OutN.old) changes).map fun o => match o with | .old d => d.node | .new _ nd _ => nd)
+  | _ => none
+
+/-- the two-worker stage of updater `U` under the schedule `s` followed by round robin; with `stopAt = some t` the run is cut
+after `t` round-robin rounds.  Per worker: `range.low` and the keys of its tracker. -/
+def trackersAt (U : Upd St (List Nat) Bool) (nodes : List (List Nat)) (cs : List (Nat × Bool)) (s : List Nat) (rounds : Nat) :
+    Option (List (Option Nat × List Nat)) :=
+  let db := mkDb nodes
+  let wps := prepareWorkers (look db) (cs.map (·.1)) 2
+  let g0 := initG U {} db cs wps
+  match runSched U {} db s g0 with
+  | .inl _ => none
+  | .inr g1 =>
+    match runSched U {} db ((List.range rounds).flatMap fun _ => List.range g1.n) g1 with
+    | .inl _ => none
+    | .inr g => some ((List.range g.n).map fun i => ((g.ws i).low, (g.ws i).tr.inner.map (·.1)))
 
 /-- all `0/1` lists of length `n` (worker picks of a two-worker schedule) -/
 def allPicks : Nat → List (List Nat)
